@@ -8,7 +8,7 @@ SPEC = {
     "sub": "c12",
     "lean_modules": ["TrustVerif.Props.C12"],
     "tiers": {
-        "quick": {"cases": 2500, "extra": {"maxbytes": 4096, "maxmodeltokens": 3000}},
+        "quick": {"cases": 2000, "extra": {"maxbytes": 4096, "maxmodeltokens": 3000}},
         "thorough": {"cases": 30000, "extra": {"maxbytes": 4096, "maxmodeltokens": 7000}},
     },
     "timeout": 7200,
@@ -20,14 +20,17 @@ SPEC = {
             "drawn from the real #[token] table of lexer/tokens.rs, every .st file under /repo (123 files) verbatim, "
             "mutated (14 token/character-level mutations, 1-4 per case), truncated or spliced, generated error-free "
             "programs, and nesting cases (expressions to depth 1500, statements/types/namespaces to depth 200, in a "
-            "child process). Per case the real lexer, parser hook and parser run; 3 operations are compared with the "
-            "model (lex, sink, errs). non-trivial = the lexer post-pass fired, or the event stream contains a forward "
+            "child process). Per case the real lexer, parser hook and parser run; 4 operations are compared with the "
+            "model (lex = post-pass on the raw logos stream; sink = tree from the real tokens+events; errs; parse = the "
+            "model parser run on operations reconstructed from the real events/errors must reproduce them). Cases with "
+            "more than maxmodeltokens tokens are oracle-only. non-trivial = the lexer post-pass fired, or the event stream contains a forward "
             "parent, or the parser reported an error (recovery path); distinct = by hash of the case's operation lines",
     "trusted_base": [
         "Lean 4.33.0 kernel; axioms per theorem listed under 'theorems'",
         "hand-written model lean/TrustVerif/Model/C12.lean of Lexer::next (post-pass), Source, Parser::{start,bump,"
         "start_node,finish_node,error}, Marker::complete, CompletedMarker::precede, set_forward_parent, Sink::finish, "
-        "tied by this run's correspondence (post-pass on the raw logos stream; sink on the real token + event stream)",
+        "tied by this run's correspondence (post-pass on the raw logos stream; sink on the real token + event stream; "
+        "parser operations reconstructed from the real event/error stream and re-run by the model)",
         "rowan 0.15.19 GreenNodeBuilder modelled from its source (token/start_node/finish_node/finish), not verified; "
         "the tree comparison through rowan's public API (kind, text, preorder) tests that model on every case",
         "logos 0.14.4 is a black box: its raw spans are an input of the model; that they tile the text on character "
@@ -50,16 +53,18 @@ MANIFEST = {
                  "discipline and the tree sink (incl. forward parents and the rowan builder) + differential "
                  "correspondence on the real token/event streams + run-time monitor of the theorem premises + "
                  "oracle (testing) of the property statement on the real parser",
-    "level_text": "Proved for every input (no bound): c12_lex_tiles / c12_lex_boundaries (the IntLiteral-dot split keeps "
-                  "token ranges contiguous, non-empty, non-overlapping and on character boundaries), c12_tokens_concat "
-                  "(token texts of a tiling concatenate to the text), c12_sink_lossless_events (for every token list and "
-                  "every event stream meeting three decidable premises, Sink::finish with rowan's builder neither panics "
-                  "nor loops and the text of the tree equals the input, forward-parent chains included), "
-                  "c12_parser_events_ok + c12_sink_lossless (every sequence of parser operations that respects the Marker "
-                  "discipline produces such a stream), c12_errors_in_bounds. Each run executes the model on the real raw "
-                  "logos stream and on the real (tokens, events) of verif_parse_events and compares the post-pass result "
-                  "and the whole tree with the real lexer and rowan tree, and evaluates the theorem premises on the real "
-                  "stream.",
+    "level_text": "Proved for every input (no bound): c12_lexer_iterator + c12_lex_tiles / c12_lex_boundaries (Lexer::next "
+                  "with its pending queue; the IntLiteral-dot split keeps token ranges contiguous, non-empty, non-overlapping "
+                  "and on character boundaries), c12_tokens_concat (token texts of a tiling concatenate to the text), "
+                  "c12_sink_lossless_events / c12_sink_tokens_events (for every token list and every event stream meeting "
+                  "decidable premises E1-E3 (E4), Sink::finish with rowan's builder neither panics nor loops, the text of the "
+                  "tree equals the input and its leaves are exactly the lexer's tokens; forward-parent chains of any shape "
+                  "included), c12_parser_events_ok + c12_sink_lossless (every sequence of parser operations that respects "
+                  "the Marker discipline runs without panic and produces such a stream), c12_errors_in_bounds. Each run "
+                  "executes the model on the real raw logos stream, on the real (tokens, events) of verif_parse_events and on "
+                  "parser operations reconstructed from the real stream, compares token list, whole tree, events and error "
+                  "ranges with the real lexer/parser/rowan tree, and evaluates every theorem premise (E1-E4, tiling, "
+                  "boundaries, no-Eof, discipline, at-end) on the real stream.",
     "level_note": "PARTIAL. Not proved, only tested on generated inputs (oracle on the implementation): that the grammar "
                   "functions terminate without panic, keep the Marker discipline and consume every token; purity (parse "
                   "twice, compare green trees and errors); tree-shape invariance under insertion of spaces/newlines/block "
@@ -116,7 +121,9 @@ def extra(ctx):
                      "oracle_clauses": ["no panic in lex / parse / event hook", "tokens tile [0,|s|) and their texts "
                                         "concatenate to s", "parse(s).syntax().text() == s", "error ranges inside the text "
                                         "and equal to a significant token's range or 0..0", "second parse gives the same "
-                                        "green tree and errors", "error-free inputs: same shape (trivia-free pre-order dump) "
+                                        "green tree and errors", "the leaves of the tree are the lexer's tokens (kind, range) "
+                                        "in order", "events and errors are reproducible by parser operations (Marker discipline)",
+                                        "error-free inputs: same shape (trivia-free pre-order dump) "
                                         "and still error-free after inserting spaces/newlines/block comments at token "
                                         "boundaries", "premises of c12_sink_lossless_events hold on the real stream"]},
     }
